@@ -2,9 +2,10 @@
    Only property theorems (closed by [exact]), Print Assumptions and non-vacuity examples.
    Proved: the CSV line protocol of the model's writer and reader, for every column order, separator, width/precision and value.
    Not proved (named in DESIGN.md): that CPython's float() returns the binary64 nearest to the decimal text and that str(float)
-   round-trips (Python's contract), the GPX/XML layer, the WKT layer and the network CSV layer (oracle streams only). *)
+   round-trips (Python's contract), the GPX/XML layer and the network CSV layer (oracle streams only); the WKT layer is proved at the
+   level of tokens (C13_wkt_tokens). *)
 From Coq Require Import List Ascii String ZArith QArith Qabs Bool Lia.
-From TL Require Import Model.TextFmt Proofs.Columns Proofs.TimeText Model.CsvText Proofs.FixedText Proofs.CsvLine.
+From TL Require Import Model.TextFmt Proofs.Columns Proofs.TimeText Model.CsvText Model.WktText Proofs.FixedText Proofs.CsvLine Proofs.WktText.
 Import ListNotations.
 Close Scope Z_scope.
 Close Scope Q_scope.
@@ -43,9 +44,18 @@ Theorem C13_csv_line w p idE idN idU idT c x y z t :
 Proof. exact (csv_line_roundtrip w p idE idN idU idT c x y z t). Qed.
 Print Assumptions C13_csv_line.
 
+(* Track.toWKT then TrackReader.parseWkt: the same coordinate tokens (upper-cased, as parseWkt does: 1e-05 becomes 1E-05, the same
+   number), in the same order, for every non-empty list of points whose tokens contain no parenthesis, comma or space *)
+Theorem C13_wkt_tokens pts : pts <> [] -> Forall (fun p => tok_ok (fst p) /\ tok_ok (snd p)) pts ->
+  parse_wkt (to_wkt pts) = Some (map (fun p => (upper (fst p), upper (snd p))) pts).
+Proof. exact (wkt_roundtrip pts). Qed.
+Print Assumptions C13_wkt_tokens.
+
 (* non-vacuity: a real line, with permuted columns, meets the hypotheses *)
 Example C13_example :
   let t := mk 29 2 2020 23 59 59 in
   distinct (ids_of 1 0 (Some 3) (Some 2)) = true /\ sep_ok ";" = true /\ stamp_ok t /\
   read_fields ";" (line 10 3 1 0 (Some 3) (Some 2) ";" (15 # 10) (-30004 # 10000) (1 # 16) t) = ["-3.000"; "1.500"; "29/02/2020 23:59:59"; "0.062"].
 Proof. exact csv_line_example. Qed.
+Example C13_wkt_example : parse_wkt (to_wkt [("1.5", "-2e-05"); ("3.0", "4.25")]) = Some [("1.5", "-2E-05"); ("3.0", "4.25")].
+Proof. reflexivity. Qed.
